@@ -212,6 +212,11 @@ def mk_binop(op, a, b):
     f = fold_binop(op, a, b)
     if f is not None:
         return f
+    # one spelling per comparison: a > b is b < a, a >= b is b <= a
+    if op == "Gt":
+        op, a, b = "Lt", b, a
+    elif op == "Ge":
+        op, a, b = "Le", b, a
     if op in ("Eq", "Ne"):
         # a - b == 0 is a == b (also in wrapping arithmetic)
         for x, c in ((a, b), (b, a)):
@@ -301,6 +306,7 @@ class BodyInfo:
                         blkset.add(x)
                         stack.extend(self.pred(x))
         self.loop_writes = {h: self._writes(bs) for h, bs in self.loops.items()}
+        self.loop_append_only = {h: self._append_only(bs) for h, bs in self.loops.items()}
 
     def pred(self, x):
         if not hasattr(self, "_pred"):
@@ -335,6 +341,61 @@ class BodyInfo:
 
     def dominates(self, a, b):
         return a in self.dom.get(b, set())
+
+    APPENDERS = ("extend_from_slice", "push", "push_str", "write_fmt", "write_all", "reserve", "extend", "put_slice", "put_u8")
+
+    def _append_only(self, blkset):
+        """byte-buffer places (Vec<u8>, String, BytesMut) that the loop touches only through `&mut place` handed as the receiver
+        of an appending method: after any number of iterations such a buffer is its entry value followed by appended bytes.
+        -> set of place keys (local, projection as a tuple)"""
+        def pkey(pl):
+            return (pl["local"], tuple((e.get("k"), e.get("name"), e.get("i")) for e in pl["proj"]))
+        refs_ok, refs_bad = set(), set()
+        temps = {}       # temp local -> key of the buffer place it mutably borrows (directly or by reborrowing such a temp)
+        blocks = [self.body["blocks"][b] for b in sorted(blkset)]
+        for _ in range(2):
+            for blk in blocks:
+                for st in blk["stmts"]:
+                    if st["k"] != "assign" or st["place"]["proj"]:
+                        continue
+                    rv = st["rv"]
+                    if rv["k"] in ("ref", "rawptr") and rv["mut"]:
+                        src = rv["place"]
+                        ty = (src.get("ty", {}) or {}).get("s", "")
+                        if ty.startswith("std::vec::Vec<u8") or ty in ("std::string::String", "bytes::BytesMut"):
+                            if len(src["proj"]) == 1 and src["proj"][0].get("k") == "deref" and src["local"] in temps:
+                                temps[st["place"]["local"]] = temps[src["local"]]       # reborrow of a tracked temp
+                            elif not any(e.get("k") == "deref" for e in src["proj"]):
+                                temps[st["place"]["local"]] = pkey(src)
+        used_ok = set()
+        for blk in blocks:
+            for st in blk["stmts"]:
+                if st["k"] == "assign":
+                    rv = st["rv"]
+                    if rv["k"] in ("ref", "rawptr") and rv["mut"]:
+                        src = rv["place"]
+                        if src["local"] in temps and len(src["proj"]) == 1 and src["proj"][0].get("k") == "deref":
+                            continue       # the reborrow itself
+                        if st["place"]["local"] in temps and not st["place"]["proj"]:
+                            continue       # the borrow itself
+                        refs_bad.add(pkey(src))
+                    elif not (st["place"]["local"] in temps and not st["place"]["proj"]):
+                        refs_bad.add(pkey(st["place"]))      # a plain assignment to a place is not an append
+                        for op in (rv.get("ops") or []) + [rv.get("op")] + [rv.get("a")] + [rv.get("b")]:
+                            pl = op.get("place") if isinstance(op, dict) else None
+                            if pl and pl["local"] in temps and not pl["proj"]:
+                                refs_bad.add(temps[pl["local"]])      # the reference is stored somewhere
+            t = blk["term"]
+            if t and t["k"] == "call":
+                for i, a in enumerate(t["args"]):
+                    pl = a.get("place")
+                    if pl and not pl["proj"] and pl["local"] in temps:
+                        name = (t["callee"].get("path") or "").split("::")[-1]
+                        if i == 0 and name in self.APPENDERS:
+                            refs_ok.add(temps[pl["local"]])
+                        else:
+                            refs_bad.add(temps[pl["local"]])
+        return refs_ok - refs_bad
 
     def _writes(self, blkset):
         """places possibly written inside the loop (as place dicts)"""
@@ -946,6 +1007,19 @@ class PX:
                 if t["k"] == "goto":
                     bb = t["target"]
                     continue
+                if t["k"] == "call" and t.get("target") is not None:
+                    # a const-evaluable constructor call (e.g. `1..=9` is RangeInclusive::new(1, 9)): use its model when the
+                    # model gives a single value
+                    c = t["callee"]
+                    model = self.models.get(c.get("res_path")) or self.models.get(c.get("path"))
+                    args = [self.eval_op(st, fr, a) for a in t["args"]]
+                    ev = {"k": "call", "fn": pname, "bb": bb, "callee": c, "names": set(), "args": args, "snap": [None] * len(args),
+                          "span": t.get("span"), "uid": (pname, bb, 1, 0), "dest": t["dest"], "argops": t["args"]}
+                    res = model(self, st, fr, ev) if model else None
+                    if isinstance(res, dict) and "value" in res and "assume" not in res:
+                        self.write_place(st, fr, t["dest"], res["value"])
+                        bb = t["target"]
+                        continue
                 cache[pname] = None
                 return None
             v = self.read_local(st, fr, 0)
@@ -1147,6 +1221,9 @@ class PX:
                 listed.append(nm)
                 choices.append((nm, b, (lambda c, v=v, nm=nm: c.set_variant(v, nm))))
             rest = allnames - set(listed)
+            rest_live = rest - set(st.cons.notvariant.get(v, ()))     # variants the path has not excluded already
+            if names and rest and len(rest_live) == 1:
+                rest = rest_live
             if not names or rest:
                 if len(rest) == 1:
                     only = next(iter(rest))
@@ -1256,6 +1333,13 @@ class PX:
             old = self._read(st, root, path)
             sig = self.chain_sig(st)
             nv = ("loopvar", info.name, header, self._place_key(root, path), n) + ((sig,) if sig else ())
+            pk = (place["local"], tuple((e.get("k"), e.get("name"), e.get("i")) for e in place["proj"]))
+            if pk in info.loop_append_only.get(header, ()) and isinstance(old, tuple) and old and old[0] in ("appended", "newbuf", "reserved"):
+                # an append-only byte buffer: its entry contents followed by whatever the iterations appended
+                lev0 = st.extra.setdefault("loop_entry_values", {})
+                lev0[(info.name, header, self._place_key(root, path))] = old
+                self._write(st, root, path, ("appended", old, ("slice", nv)))
+                continue
             if place["ty"].get("k") == "int":
                 TY[nv] = (place["ty"]["bits"], place["ty"]["signed"])
             if place["ty"].get("k") == "bool":
